@@ -75,7 +75,7 @@ type c18World struct {
 
 func CheckC18(l *Lab, verifDir string) int {
 	rep := NewReport("C18", l.Tier, l.Seed, "fault_enumeration", verifDir)
-	rep.Rule = "real gateway processes are started from configurations enumerated over {16 mechanism subsets (local spelled 'local' and 'basic')} x TLS {disable, certificate} x tokenauth x host selection (4) x query key x keytab x hosts {0,1,2}: thorough runs the full product (file delivery) plus environment / mixed delivery of the rule-relevant keys, quick runs every configuration that violates exactly one rule, its repaired twin, all pairwise rule combinations and a PRNG sample of the rest; reference predicate refuse(cfg) from the statement: refuse => the process exits non-zero and never accepts a connection, otherwise it serves an HTTP exchange. Key substitution: for each of PAATokenSigningKey, UserTokenEncryptionKey, SessionKey, SessionEncryptionKey at lengths 0/1/31 (both session stores, shared temp directory for the file store) two instances are started from the same configuration: an artefact of A (access token, user token, session cookie) must be refused by B and accepted by A; length 32 is run as calibration. non-trivial = the process got as far as reading its configuration; distinct = configuration"
+	rep.Rule = "real gateway processes are started from configurations enumerated over {16 mechanism subsets (local spelled 'local' and 'basic')} x TLS {disable, certificate} x tokenauth x host selection (4) x query key x keytab x hosts {0,1,2}: thorough runs the full product (file delivery) plus environment / mixed delivery of the rule-relevant keys, quick runs every configuration that violates exactly one rule, its repaired twin, all pairwise rule combinations and a PRNG sample of the rest; reference predicate refuse(cfg) from the statement: refuse => the process exits non-zero and never accepts a connection, otherwise it serves an HTTP exchange. Mixed-case spellings of mechanism / TLS names (file and environment): refusal is not demanded, but a started process is probed and must not show the unsafe combination in effect (Basic challenge on a plaintext listener, NTLM challenge plus served KDC proxy, login redirect plus cookie-less tunnel creation). Key substitution: for each of PAATokenSigningKey, UserTokenEncryptionKey, SessionKey, SessionEncryptionKey at lengths 0/1/31 (both session stores, shared temp directory for the file store) two instances are started from the same configuration: an artefact of A (access token, user token, session cookie) must be refused by B and accepted by A; length 32 is run as calibration. non-trivial = the process got as far as reading its configuration; distinct = configuration"
 	rep.SetExhaustive(!l.Quick())
 	rep.Assume("environment delivery is restricted to keys whose RDPGW_ spelling maps onto the same koanf key as the file / default spelling (Server.Tls, Server.Authentication, Server.Hosts, Kerberos.Keytab); for the other keys koanf would hold two differently cased keys and the effective value is not a function of the input")
 	idp, err := NewIdP()
@@ -193,6 +193,7 @@ func CheckC18(l *Lab, verifDir string) int {
 	}
 	close(jobs)
 	wg.Wait()
+	c18MixedCase(l, rep, w)
 	c18Keys(l, rep, idp)
 	return rep.Finish(40)
 }
